@@ -3,7 +3,24 @@
    Model: coq/model/SchemaSyn.v.  Text-level parsing / printing is correspondence-only (vp/props/c09.py). *)
 From Coq Require Import Permutation String.
 Open Scope string_scope.
-From Cedar Require Import SchemaSyn SchemaSynProofs.
+From Cedar Require Import SchemaSyn SchemaSynProofs SchemaJson SchemaJsonProofs.
+
+(* JSON-tree round trip: decoding the tree the encoder writes gives back the fragment, for every fragment whose
+   must-be-common references {"type": n} do not use one of the keywords of the format as n (wf_fragment; the
+   condition is necessary: c09_json_roundtrip_needs_wf).  Proved by induction on type expressions (nested records
+   and sets), then declaration by declaration.  Tree level: JSON text, `A::B` name syntax, key order and duplicate
+   keys are text level (correspondence only). *)
+Theorem c09_json_roundtrip :
+  forall f, wf_fragment f = true -> json_to_fragment (fragment_to_json f) = Some f.
+Proof. exact json_roundtrip. Qed.
+Print Assumptions c09_json_roundtrip.
+
+Example c09_json_roundtrip_needs_wf :
+  json_to_fragment (fragment_to_json [mkNs [] [(s2str "T", XCommon (kw "Long"))] [] []])
+  = Some [mkNs [] [(s2str "T", XPrim PLong)] [] []].
+Proof. exact json_roundtrip_needs_wf. Qed.
+Example c09_json_roundtrip_nonvacuous : wf_fragment collision_witness = true.
+Proof. vm_compute. reflexivity. Qed.
 
 (* PARTIAL (name level).  Writing a must-be-entity or must-be-common reference as a bare name (what fmt.rs
    does) and reading it back as entity-or-common (what the Cedar parser does) resolves to the same definition
